@@ -310,6 +310,7 @@ func VerifC11ManyGood() {
 		r := "r" + string(rune('a'+i))
 		rows = append(rows, "- "+r, "  - c")
 		if op == 5 {
+			vfsAdd([]string{r}, 1)
 			vfsAdd([]string{r, "c"}, 1)
 		}
 	}
